@@ -1,6 +1,7 @@
-(* C16 — lemmas (collected): ProofsSearch (classification, merge, page), ProofsFetch (streams). *)
+(* C16 — lemmas (collected): ProofsSearch (classification, merge, page), ProofsFetch (streams: soundness),
+   ProofsAlign (streams: completeness for well-behaved streams). *)
 From Coq Require Import List Bool Arith NArith Lia.
-From C16 Require Export Model CaseDefs ProofsSearch ProofsFetch.
+From C16 Require Export Model CaseDefs ProofsSearch ProofsFetch ProofsAlign.
 Import ListNotations.
 
 Lemma hot_refuses_spec : forall mature oldest from,
